@@ -563,6 +563,8 @@ def _map_or(ip, st, t, a, rt):
         payload = opt_payload(o, '?')
         r = call_fn_value(ip, f, [payload], rt)
         return I.ite(opt_is_some(o), r, dflt)
+    if k == 'ite':
+        return I.ite(p.c, _map_or(ip, st, t, [p.a, dflt, f], rt), _map_or(ip, st, t, [p.b, dflt, f], rt))
     return NotImplemented
 
 
@@ -578,6 +580,8 @@ def _map(ip, st, t, a, rt):
         payload = opt_payload(o, '?')
         r = call_fn_value(ip, f, [payload], '?')
         return I.ite(opt_is_some(o), I.some(r), I.NONE)
+    if k == 'ite':
+        return I.ite(p.c, _map(ip, st, t, [p.a, f], rt), _map(ip, st, t, [p.b, f], rt))
     return NotImplemented
 
 
@@ -595,6 +599,8 @@ def _is_some_and(ip, st, t, a, rt):
         if isinstance(r, I.B):
             return I.b_and(opt_is_some(o), r)
         return I.ite(opt_is_some(o), r, I.FALSE)
+    if k == 'ite':
+        return I.ite(p.c, _is_some_and(ip, st, t, [p.a, f], rt), _is_some_and(ip, st, t, [p.b, f], rt))
     return NotImplemented
 
 
@@ -627,6 +633,8 @@ def _map_or_else(ip, st, t, a, rt):
         r = call_fn_value(ip, f, [payload], rt)
         d = call_fn_value(ip, dflt, [], rt)
         return I.ite(opt_is_some(o), r, d)
+    if k == 'ite':
+        return I.ite(p.c, _map_or_else(ip, st, t, [p.a, dflt, f], rt), _map_or_else(ip, st, t, [p.b, dflt, f], rt))
     return NotImplemented
 
 
@@ -640,6 +648,8 @@ def _unwrap_or_else(ip, st, t, a, rt):
         return p
     if k == 'sym':
         return I.ite(opt_is_some(o), opt_payload(o, rt), call_fn_value(ip, dflt, [], rt))
+    if k == 'ite':
+        return I.ite(p.c, _unwrap_or_else(ip, st, t, [p.a, dflt], rt), _unwrap_or_else(ip, st, t, [p.b, dflt], rt))
     return NotImplemented
 
 
@@ -653,6 +663,8 @@ def _unwrap_or(ip, st, t, a, rt):
         return p
     if k == 'sym':
         return I.ite(opt_is_some(o), opt_payload(o, rt), dflt)
+    if k == 'ite':
+        return I.ite(p.c, _unwrap_or(ip, st, t, [p.a, dflt], rt), _unwrap_or(ip, st, t, [p.b, dflt], rt))
     return NotImplemented
 
 
@@ -729,7 +741,31 @@ def _opt_filter(ip, st, t, a, rt):
         return NotImplemented
     if k == 'ite':
         return I.ite(p.c, _opt_filter(ip, st, t, [p.a, f], rt), _opt_filter(ip, st, t, [p.b, f], rt))
+    if k == 'sym' and isinstance(p, I.Sym):
+        payload = opt_payload(o, '?')
+        c = call_fn_value(ip, f, [ip.ref_to(payload)], 'bool')
+        if isinstance(c, I.B):
+            return I.ite(I.b_and(opt_is_some(o), c), I.some(payload), I.NONE)
     return NotImplemented
+
+
+@reg('core::bool::<impl bool>::then')
+def _bool_then(ip, st, t, a, rt):
+    c = a[0]
+    if not isinstance(c, I.B):
+        return NotImplemented
+    if c.op == 'const':
+        return I.some(call_fn_value(ip, a[1], [], '?')) if c.args[0] else I.NONE
+    v = call_fn_value(ip, a[1], [], '?')
+    return I.ite(c, I.some(v), I.NONE)
+
+
+@reg('core::bool::<impl bool>::then_some')
+def _bool_then_some(ip, st, t, a, rt):
+    c = a[0]
+    if not isinstance(c, I.B):
+        return NotImplemented
+    return I.ite(c, I.some(a[1]), I.NONE)
 
 
 def call_fn_value(ip, f, args, rt):
@@ -1012,6 +1048,31 @@ def _fixed_search(ip, st, t, a, rt):
     for i in reversed(range(len(conds))):
         out = I.ite(conds[i], I.some(RF.const(i)), out)
     return out
+
+
+def _regx_first(pattern):
+    def d(f):
+        RX.insert(0, (re.compile(pattern), f))
+        return f
+    return d
+
+
+@_regx_first(r'^std::iter::Iterator::map$')
+def _map_over_concrete_array(ip, st, t, a, rt):
+    it = deref(a[0])
+    if isinstance(it, I.St) and it.adt == 'std::array::IntoIter' and isinstance(it.fields.get('pos'), RF) and it.fields['pos'].is_zero():
+        arr_ = it.fields['arr']
+        out = [call_fn_value(ip, a[1], [arr_.fields[k]], '?') for k in sorted(arr_.fields)]
+        return I.St('std::array::IntoIter', None, {'arr': I.arr(out), 'pos': RF.const(0)})
+    return _adaptor(ip, st, t, a, rt)
+
+
+@regx(r'^std::iter::Iterator::collect$')
+def _collect_concrete_array(ip, st, t, a, rt):
+    it = deref(a[0])
+    if isinstance(it, I.St) and it.adt == 'std::array::IntoIter' and isinstance(it.fields.get('pos'), RF) and it.fields['pos'].is_zero():
+        return it.fields['arr']
+    return NotImplemented
 
 
 # --- by-value iteration over a small constant array (`for [i, j, k] in TABLE`): concrete while unrolling ------------------
